@@ -19,13 +19,18 @@ LEVEL = "model_checking"
 A_SPECS = {
     "A_stagnating": '<start> ::= <x>*\n<x> ::= "a" | "b"\nwhere str(<start>).count("a") == 7 and str(<start>).count("b") == 9 and len(str(<start>)) == 3\n',
     "A_easy": '<start> ::= <x>+ "!"\n<x> ::= "a" | "b"\nwhere len(str(<start>)) > 2\n',
+    # solvable, but only after some stagnating generations: fuzz() then stops consuming the generator EARLY (desired_solutions reached)
+    "A_slow": '<start> ::= <d>+\n<d> ::= r"[0-9]"\nwhere int(str(<start>)) % 97 == 3\n',
+    # an optimisation goal over the same trees as B_soft
+    "A_soft": '<start> ::= <d>+\n<d> ::= r"[0-9]"\nminimizing int(str(<start>))\nwhere len(str(<start>)) < 7\n',
 }
 B_SPECS = {
     "B_star": ('<start> ::= "a"* <y>\n<y> ::= "b"+ | "c"{2,}\n', "aabb"),
     "B_constrained": ('<start> ::= <x>* ";"\n<x> ::= "a" | "bb"\nwhere len(str(<start>)) > 3\n', "abba;"),
     "B_same_words": ('<start> ::= <x>*\n<x> ::= "a" | "b"\nwhere len(str(<start>)) == 4\n', "abab"),
+    "B_soft": ('<start> ::= <d>+\n<d> ::= r"[0-9]"\nmaximizing str(<start>).count("7")\nwhere len(str(<start>)) < 7\n', "7747"),
 }
-OPS = ["A.fuzz", "A.fuzz_long", "A.parse", "C.construct", "C.fuzz", "B.parse", "B.fuzz_other_seed"]
+OPS = ["A.fuzz", "A.fuzz_long", "A.fuzz_until_found", "A.parse", "C.construct", "C.fuzz"]  # activity on OTHER spec objects only
 
 
 def fingerprint():
@@ -60,6 +65,8 @@ def run_history(task):
                 a.fuzz(desired_solutions=2, max_generations=3, population_size=6, random_seed=5)
             elif op == "A.fuzz_long":
                 a.fuzz(desired_solutions=50, max_generations=12, population_size=10, random_seed=6)
+            elif op == "A.fuzz_until_found":
+                a.fuzz(desired_solutions=2, max_generations=60, population_size=10, random_seed=7)
             elif op == "A.parse":
                 list(a.parse("ab"))
                 list(a.parse(b_word))
@@ -88,7 +95,7 @@ def run(ctx: Ctx) -> None:
         hists += list(itertools.product(OPS, repeat=d))
     # histories that only touch B itself before the observation are about B's own state, not about other instances: B-ops only count in combination
     hists = [h for h in hists if not h or any(not op.startswith("B") for op in h)] + [()]
-    pairs = [(a, b) for a in A_SPECS for b in B_SPECS]
+    pairs = [(a, b) for a in A_SPECS for b in B_SPECS if (a == "A_soft") == (b == "B_soft") or a == "A_slow"]
     tasks = rotate([(a, b, h) for (a, b) in pairs for h in dict.fromkeys(hists)], ctx.seed)
     ctx.log(f"{len(tasks)} histories, each in its own process")
     results = pmap_tagged(run_history, tasks, chunk=1, fresh=True)
